@@ -1,7 +1,7 @@
 """Checks decided by spec/LabRunAbs.tla (property level) + spec/LabRun.tla (implementation level):
 C01 C02 C03 C04 C05 C10 C11 C14 C17 (and the R2 part of C16 / C19).
 
-Flow of one check (DESIGN 4.2):
+Flow of one check (DESIGN 3.2):
   1. TLC explores LabRun over the property's configuration family and checks the property's
      Abs!Cxx formulas through the refinement mapping (does the *design* admit a bad state?).
   2. TLC -simulate produces behaviours of LabRun; their environment decisions are the schedules.
@@ -377,5 +377,5 @@ def run(prop: str, tier: str) -> int:
         rc = rep.finish()
         harness.write_evidence(prop, tier, seed, 'model_checking', cov, time.time() - t0, nviol, [
             'R2 executes worker thunks at process start on virtual processes; real-process behaviour is covered by the R3 part',
-            'TLC bounded model: tasks <= family bound; the monitor trusts the hook placement documented in DESIGN 6.1'])
+            'TLC bounded model: tasks <= family bound; the monitor trusts the hook placement documented in DESIGN 5.1'])
         return rc
